@@ -32,14 +32,20 @@ def run(ctx):
         (ctx.ok if ok else ctx.bad)("L-WIRE", "L-WIRE:Network::send<-%s" % b.key, K.loc_of_block(b, bb),
             "Network::send called from the task spawned by send_pci" if ok else
             "Network::send is called from %s: a frame can reach the wire without the MTU check of send_pci" % b.pretty)
-    allowed_recv = {K.NETWORK_SEND + "::{closure#0}": 2,
+    allowed_recv = {K.NETWORK_SEND + "::{closure#0}": 99,      # who is handed what is decided by L-UNICAST on the formula
                     "elvis_core::protocols::ipv4::ipv4_session::{impl#0}::send_with_ttl": 1,
                     "elvis_core::protocols::ipv4::ipv4_session::{impl#1}::send": 1}
     sites = cg.call_sites(K.PCI_RECEIVE)
     per = {}
     for b, bb in sites:
         per.setdefault(b.key, []).append(bb)
-    ctx.require(K.NETWORK_SEND + "::{closure#0}" in per, "Network::send no longer calls PciSession::receive (anchor lost)")
+    # private helpers of the network module that only Network::send calls count as part of it
+    nsend = prog.body(K.NETWORK_SEND + "::{closure#0}")
+    for hk in _delivery_helpers(prog, nsend):
+        callers = {b.key for b, _ in cg.call_sites(hk)}
+        if callers and callers <= {nsend.key} | set(_delivery_helpers(prog, nsend)):
+            allowed_recv[hk] = 99
+    ctx.require(any(k in per for k in allowed_recv if k.startswith("elvis_core::network::")), "Network::send no longer hands frames to PciSession::receive (anchor lost)")
     for k, bbs in per.items():
         b = prog.body(k)
         ok = k in allowed_recv and len(bbs) <= allowed_recv[k]
@@ -238,70 +244,129 @@ def _check_next_mac(nm):
     return probs
 
 
+def _delivery_helpers(prog, co):
+    """Private helpers of the network module through which Network::send hands a frame to a tap (they call
+    PciSession::receive and contain no loop): treated as part of send."""
+    out = []
+    for b in prog.bodies.values():
+        if b.key == co.key or not b.key.startswith("elvis_core::network::") or b.kind not in ("fn", "method"):
+            continue
+        if K.calls_to(b, K.PCI_RECEIVE) and not any(cfg(b).in_loop(bb) for bb in range(len(b.blocks)) if not b.is_cleanup(bb)):
+            out.append(b.key)
+    return tuple(out)
+
+
+def _paths_with_log(t):
+    """[(leaf, [terms mentioned on the way: conditions and logged calls])] of an effects-mode formula."""
+    from .. import symx as S
+    out = []
+
+    def go(x, seen):
+        if x[0] == "state":
+            log = list(dict(x[2]).get(S.LOG, ()))
+            return go(x[1], seen + log)
+        if x[0] == "ite":
+            go(x[2], seen + [x[1]])
+            go(x[3], seen + [x[1]])
+        elif x[0] == "switch":
+            for _, y in x[2]:
+                go(y, seen + [x[1]])
+            go(x[3], seen + [x[1]])
+        else:
+            out.append((x, seen + [x]))
+    go(t, [])
+    return out
+
+
+def _unicast_formula(ctx, prog, co, helpers):
+    """L-UNICAST on the formula of Network::send, specialised to the destination of the frame: None and
+    Some(BROADCAST_MAC) hand the frame to taps taken from taps.iter(); Some(m) for any other m hands it to
+    taps.get(m) only - and to nobody when no tap owns m."""
+    from .. import symx as S
+    bmac = prog.const_val("network::{impl#1}::BROADCAST_MAC")
+    try:
+        ex = S.Extractor(prog, helpers, effects=True, max_nodes=600000)
+        ex.loops_ok = True
+        ex.log_calls = {K.PCI_RECEIVE}      # a hand-over counts even when its result is thrown away
+        t = ex.run(co, S.params_of(co))
+    except S.Unsupported as e:
+        return ["Network::send cannot be reduced to a formula (%s)" % e]
+    dests = set(S.atoms(t, lambda x: x[0] == "field" and x[2] == "destination" and S.atoms(x[1], lambda y: y[0] == "field" and y[2] == "delivery")))
+    if len(dests) != 1:
+        return ["the frame's destination is not read as delivery.destination (%d forms)" % len(dests)]
+    DEST = dests.pop()
+    is_recv = lambda x: x[0] == "call" and x[1] == K.PCI_RECEIVE
+
+    def case(val):
+        def f(x):
+            if x == ("discr", DEST):
+                return ("const", 0 if val is None else 1)
+            if x[0] == "field" and x[1][0] == "downcast" and x[1][1] == DEST:
+                return ("const", val) if val is not None else ("opaque", "none")
+            if x == DEST and val is not None:
+                return ("agg", "core::option::Option::Some", (("const", val),))
+            return None
+        r = S.subst(t, f)
+        res = []
+        for leaf, seen in _paths_with_log(r):
+            rc = []
+            for term in seen:
+                if is_recv(term):
+                    rc.append(term)             # one logged hand-over each, even if the terms are equal
+            for term in seen:
+                for c in S.atoms(term, is_recv):
+                    if c not in rc:
+                        rc.append(c)
+            res.append((leaf, rc))
+        return res
+
+    def from_iter(c):
+        return bool(S.atoms(c[2][0], lambda y: y[0] == "call" and y[1].startswith("dashmap::") and y[1].endswith("::iter")))
+
+    def from_get(c, m):
+        g_ = S.atoms(c[2][0], lambda y: y[0] == "call" and y[1].startswith("dashmap::") and y[1].endswith("::get"))
+        return len(g_) == 1 and len(g_[0][2]) == 2 and g_[0][2][1] == ("const", m) and bool(S.atoms(g_[0][2][0], lambda y: y[0] == "field" and y[2] == "taps"))
+    probs = []
+    for val, label in ((None, "None"), (bmac, "Some(BROADCAST_MAC)")):
+        paths = case(val)
+        got = [c for _, rc in paths for c in rc]
+        if not got:
+            probs.append("a frame addressed to %s is handed to no tap" % label)
+        for c in got:
+            if not from_iter(c) or not S.atoms(c[2][0], lambda y: y[0] == "field" and y[2] == "taps"):
+                probs.append("a frame addressed to %s is handed to %s, not to the taps of taps.iter()" % (label, S.term_str(c[2][0])[:80]))
+                break
+    for m in (0, 5, bmac - 1):
+        paths = case(m)
+        got = [c for _, rc in paths for c in rc]
+        if not got:
+            probs.append("a unicast frame (destination %#x) is handed to no tap" % m)
+        bad = [c for c in got if not from_get(c, m)]
+        if bad:
+            what = "every tap of the network (taps.iter())" if from_iter(bad[0]) else S.term_str(bad[0][2][0])[:80]
+            probs.append("a unicast frame (destination %#x, not the broadcast address) can be handed to %s instead of only to taps.get(destination)" % (m, what))
+        if any(len(rc) > 1 for _, rc in paths):
+            probs.append("a unicast frame (destination %#x) can be handed over more than once" % m)
+        if any(leaf[0] == "loop" for leaf, rc in paths):
+            probs.append("delivery of a unicast frame (destination %#x) runs into a loop" % m)
+        if probs:
+            break
+    for _, rc in case(5):
+        for c in rc:
+            if len(c[2]) < 2 or not S.atoms(c[2][1], lambda y: y[0] == "field" and y[2] == "delivery"):
+                probs.append("the tap is not handed the delivery itself")
+    return sorted(set(probs))
+
+
 def _check_network_send(ctx, prog, co):
     g = cfg(co)
-    recvs = K.calls_to(co, K.PCI_RECEIVE)
-    ctx.require(len(recvs) >= 2, "Network::send: expected >= 2 PciSession::receive call sites, found %d" % len(recvs))
+    helpers = _delivery_helpers(prog, co)
+    recvs = [(bb, t) for bb, t in K.calls(co) if (F.callee_key(t) or "") == K.PCI_RECEIVE or (F.callee_key(t) or "") in helpers]
+    ctx.require(len(recvs) >= 1, "Network::send hands the frame to no tap (no PciSession::receive, directly or through a helper of the module)")
     aps = K.await_points(co)
-    bmac = prog.const_val("network::{impl#1}::BROADCAST_MAC")
-
-    # ---- destination dispatch
-    dsw = None   # switch on discr(delivery.destination)
-    vsw = None   # switch on the Some payload against BROADCAST_MAC
-    for bb in range(len(co.blocks)):
-        if co.is_cleanup(bb) or co.term(bb)[0] != "switch":
-            continue
-        c = dep.switch_condition(co, bb)
-        if c and c["kind"] == "discr" and F.place_fields(c["place"])[-1:] == [(DELIVERY, "destination")]:
-            dsw = bb
-        if c and c["kind"] == "place" and (DELIVERY, "destination") in F.place_fields(c["place"]):
-            vsw = bb
-    probs = []
-    uni_entry = None
-    if dsw is None or vsw is None:
-        probs.append("destination dispatch (match on delivery.destination with the BROADCAST_MAC literal) not found")
-    else:
-        t = co.term(vsw)
-        vals = [v for v, _ in t[2]]
-        if vals != [bmac]:
-            probs.append("the broadcast arm is selected by values %s, expected exactly BROADCAST_MAC=%d" % (vals, bmac))
-        uni_entry = K.skip_false_edges(co, t[3])
-        if dep.switch_target(co, dsw, 1) not in (vsw,) and not g.dominates(dsw, vsw):
-            probs.append("the payload test is not under the Some arm")
-    uni = [(bb, t) for bb, t in recvs if uni_entry is not None and g.dominates(uni_entry, bb)]
-    bro = [(bb, t) for bb, t in recvs if (bb, t) not in uni]
-    if uni_entry is not None:
-        if len(uni) != 1:
-            probs.append("the unicast arm performs %d receive calls, expected exactly 1" % len(uni))
-        for bb, t in uni:
-            if g.in_loop(bb):
-                probs.append("the unicast receive (bb%d) sits in a loop: a frame may be delivered more than once" % bb)
-            o = dep.origins(co, F.call_args(t)[0])
-            gets = [a for a in o if a[0] == "call" and a[1] and a[1].startswith("dashmap::") and a[1].endswith("::get")]
-            if not gets:
-                probs.append("the unicast receiver does not originate from taps.get(..)")
-            else:
-                gt = co.term(gets[0][2])
-                ko = dep.origins(co, F.call_args(gt)[1])
-                if not dep.has_field(ko, "Delivery", "destination") or any(a[0] in ("op", "const") for a in ko):
-                    probs.append("taps.get key is not the unmodified delivery.destination")
-                if not dep.has_field(dep.origins(co, F.call_args(gt)[0]), "Network", "taps"):
-                    probs.append("the unicast lookup is not on Network.taps")
-            if not _is_delivery_value(co, F.call_args(t)[1]):
-                probs.append("the unicast receive does not pass the delivery itself")
-        gets_in_uni = [bb for bb, t in K.calls(co) if g.dominates(uni_entry, bb) and (F.callee_key(t) or "").startswith("dashmap::") and (F.callee_key(t) or "").endswith("::get")]
-        if len(gets_in_uni) != 1:
-            probs.append("the unicast arm performs %d tap lookups, expected 1" % len(gets_in_uni))
-    for bb, t in bro:
-        if not g.in_loop(bb):
-            probs.append("broadcast receive (bb%d) is not in the loop over the taps" % bb)
-        o = dep.origins(co, F.call_args(t)[0])
-        if not any(a[0] == "call" and a[1] and a[1].startswith("dashmap::") and a[1].endswith("::iter") for a in o) or not dep.has_field(o, "Network", "taps"):
-            probs.append("broadcast receivers do not come from taps.iter()")
-    if not bro:
-        probs.append("no broadcast delivery loop found")
+    probs = _unicast_formula(ctx, prog, co, helpers)
     (ctx.bad if probs else ctx.ok)("L-UNICAST", "L-UNICAST:Network::send", co.span,
-        "; ".join(probs) if probs else "unicast: one taps.get(delivery.destination) + one receive outside loops; broadcast (None | BROADCAST_MAC) iterates taps")
+        "; ".join(probs[:3]) if probs else "formula of send specialised to the destination: None / BROADCAST_MAC -> taps.iter(); any other m -> taps.get(m) only, at most once, nobody when no tap owns m")
 
     # ---- L-DELAY: latency
     probs = []
